@@ -1,7 +1,7 @@
 (* Instances.v — the refinement theorems instantiated at the regenerated
    tables (fold121 = CaseFold over coq/gen/Tables121.v, lower_pkg = the
    _lower table of each package): what the Properties files quote. *)
-From Strcase Require Import Base Utf8 Utf8Facts Spec SpecIndex Impl Refine_Compare Refine_Prefix
+From Strcase Require Import Base Utf8 Utf8Facts Spec SpecIndex Impl Impl2 Refine_Compare Refine_Prefix Refine_Suffix
   Fold FoldFacts FoldTables FoldFacts121.
 
 Theorem width_facts121 : width_facts fold121.
@@ -32,5 +32,23 @@ Proof. apply (trimprefix_refines fold121 lower (fold_facts_pkg p) width_facts121
 Theorem cutprefix_refines121 s prefix :
   wf s -> wf prefix -> CutPrefix fold121 lower p s prefix = Ok (cut_prefix fold121 s prefix).
 Proof. apply (cutprefix_refines fold121 lower (fold_facts_pkg p) width_facts121). Qed.
+
+Theorem hasSuffixUnicode121 s suffix :
+  wf s -> wf suffix ->
+  exists n, hasSuffixUnicode fold121 lower s suffix = Ok (has_suffix fold121 s suffix, n) /\
+    (has_suffix fold121 s suffix = true -> n = suffix_cut fold121 s suffix).
+Proof. apply (hasSuffixUnicode_ok fold121 lower (fold_facts_pkg p) width_facts121). Qed.
+
+Theorem hassuffix_refines121 s suffix :
+  wf s -> wf suffix -> HasSuffix fold121 lower s suffix = Ok (has_suffix fold121 s suffix).
+Proof. apply (hassuffix_refines fold121 lower (fold_facts_pkg p) width_facts121). Qed.
+
+Theorem trimsuffix_refines121 s suffix :
+  wf s -> wf suffix -> TrimSuffix fold121 lower s suffix = Ok (trim_suffix fold121 s suffix).
+Proof. apply (trimsuffix_refines fold121 lower (fold_facts_pkg p) width_facts121). Qed.
+
+Theorem cutsuffix_refines121 s suffix :
+  wf s -> wf suffix -> CutSuffix fold121 lower s suffix = Ok (cut_suffix fold121 s suffix).
+Proof. apply (cutsuffix_refines fold121 lower (fold_facts_pkg p) width_facts121). Qed.
 
 End Inst.
